@@ -1,12 +1,150 @@
 import GrinVerif.Drv.Common
-/-! Driver glue for the `pow` domain (line protocol handler). -/
+import GrinVerif.Model.Pow
+import GrinVerif.Model.PowSpec
+import GrinVerif.Model.PowPack
+/-! Driver glue for the `pow` domain (line protocol handler), property C05.
+
+ops (see harness/src/bin/pow.rs):
+* `sip24 k0 k1 k2 k3 nonce => h`, `sipblock k0 k1 k2 k3 nonce rot xorall => h`
+* `keys <hdrhex> <nonce|none> => k0 k1 k2 k3` (blake2b of the header, 4 LE words)
+* `ep <variant> eb k0 k1 k2 k3 nonce => u v`
+* `verify <variant> eb proofsize ctxps k0 k1 k2 k3 [nonces] => ok|<err>`: FAIL when accept/reject
+  differs from the independent graph oracle, DIFF when only the error kind / transliteration differs
+* `exh <variant> eb proofsize k0 k1 k2 k3 => <one verdict char per ascending tuple>`
+* `pack w proofsize [nonces] => hex|panic`, `unpack w proofsize <hex> => [nonces]|err`, `diff scale <hashhex> => n`
+-/
 namespace GV.Drv.PowD
-open GV GV.Drv
+open GV GV.Drv GV.Pow
 
 structure St where
   dummy : Unit := ()
 
-def handle (st : St) (_args : List String) (_impl : String) : St × Verdict :=
-  (st, .unknown)
+def mkKeys (a b c d : Nat) : Keys := ⟨a.toUInt64, b.toUInt64, c.toUInt64, d.toUInt64⟩
+
+def epOf (v : Variant) (k : Keys) (eb : Nat) : Nat → Nat × Nat :=
+  match v with
+  | .cuckatoo => epCuckatoo k eb
+  | .cuckaroo => epCuckaroo k eb
+  | .cuckarood => epCuckarood k eb
+  | .cuckaroom => epCuckaroom k eb
+  | .cuckarooz => epCuckarooz k eb
+
+def verifyOf (v : Variant) : Params → (Nat → Nat × Nat) → List Nat → Except Err Unit :=
+  match v with
+  | .cuckatoo => verifyCuckatoo
+  | .cuckaroo => verifyCuckaroo
+  | .cuckarood => verifyCuckarood
+  | .cuckaroom => verifyCuckaroom
+  | .cuckarooz => verifyCuckarooz
+
+def mkParams (eb ps ctxps : Nat) : Params :=
+  let m := bucketMask ps
+  { proofsize := ps, edgeMask := 2^eb - 1, ctxProofSize := ctxps, bk := fun x => x &&& m }
+
+def resName : Except Err Unit → String
+  | .ok _ => "ok"
+  | .error e => e.name
+
+def resChar : Except Err Unit → Char
+  | .ok _ => 'A'
+  | .error .wrongLen => 'L' | .error .tooBig => 'B' | .error .notAscending => 'N'
+  | .error .notBalanced => 'U' | .error .noMatch => 'X' | .error .branch => 'R'
+  | .error .deadEnd => 'D' | .error .tooShort => 'S' | .error .hang => 'H'
+
+/-- endpoint table for nonces `0 … n-1` -/
+def epTable (ep : Nat → Nat × Nat) (n : Nat) : Array (Nat × Nat) :=
+  (List.range n).foldl (fun a i => a.push (ep i)) #[]
+
+/-- fold over all ascending `k`-tuples of `start … N-1` in lexicographic order -/
+def foldTup {σ : Type} (N : Nat) (f : σ → List Nat → σ) : Nat → Nat → List Nat → σ → σ
+  | 0, _, pre, acc => f acc pre.reverse
+  | k+1, start, pre, acc =>
+    (List.range (N - start)).foldl (fun acc d =>
+      let x := start + d
+      if x + k < N then foldTup N f k (x+1) (x :: pre) acc else acc) acc
+
+/-- model verdict string and oracle-vs-impl agreement over every ascending tuple -/
+def exhaustive (v : Variant) (eb ps : Nat) (k : Keys) (impl : String) : Verdict :=
+  let N := 2^eb
+  let tbl := epTable (epOf v k eb) N
+  let ep := fun n => tbl.getD n (0, 0)
+  let P := mkParams eb ps ps
+  let implChars := impl.toList.toArray
+  let (model, idx, bad) := foldTup N (fun (acc : String × Nat × Option String) t =>
+      let (s, i, bad) := acc
+      let r := verifyOf v P ep t
+      let o := oracleAccept v ps (2^eb - 1) ep t
+      let ic := implChars.getD i '?'
+      let bad := match bad with
+        | some b => some b
+        | none => if (ic == 'A') != o then some s!"tuple {showNatList t} oracle={if o then "accept" else "reject"} impl={ic}" else none
+      (s.push (resChar r), i+1, bad)) ps 0 [] ("", 0, none)
+  match bad with
+  | some b => .fail b
+  | none => if idx != implChars.size then .diff s!"tuples={idx}" else cmpModel model impl
+
+def handle (st : St) (args : List String) (impl : String) : St × Verdict :=
+  match args with
+  | ["sip24", a, b, c, d, n] =>
+    match nat? a, nat? b, nat? c, nat? d, nat? n with
+    | some a, some b, some c, some d, some n =>
+      (st, cmpModel (toString (siphash24 (mkKeys a b c d) n.toUInt64).toNat) impl)
+    | _, _, _, _, _ => (st, .unknown)
+  | ["sipblock", a, b, c, d, n, rot, xa] =>
+    match nat? a, nat? b, nat? c, nat? d, nat? n, nat? rot with
+    | some a, some b, some c, some d, some n, some rot =>
+      (st, cmpModel (toString (siphashBlock (mkKeys a b c d) n.toUInt64 rot.toUInt64 (xa == "true")).toNat) impl)
+    | _, _, _, _, _, _ => (st, .unknown)
+  | ["keys", hdr, nonce] =>
+    match parseHex hdr with
+    | some hb =>
+      let hb := match nat? nonce with
+        | some n => hb.take (hb.length - 4) ++ leBytes 4 n
+        | none => hb
+      let h := h256 hb
+      let w := fun i => ofLE ((h.drop (8*i)).take 8)
+      (st, cmpModel s!"{w 0} {w 1} {w 2} {w 3}" impl)
+    | none => (st, .unknown)
+  | ["ep", v, eb, a, b, c, d, n] =>
+    match Variant.ofString? v, nat? eb, nat? a, nat? b, nat? c, nat? d, nat? n with
+    | some v, some eb, some a, some b, some c, some d, some n =>
+      let r := epOf v (mkKeys a b c d) eb n
+      (st, cmpModel s!"{r.1} {r.2}" impl)
+    | _, _, _, _, _, _, _ => (st, .unknown)
+  | ["verify", v, eb, ps, cps, a, b, c, d, ns] =>
+    match Variant.ofString? v, nat? eb, nat? ps, nat? cps, nat? a, nat? b, nat? c, nat? d, parseNatList ns with
+    | some v, some eb, some ps, some cps, some a, some b, some c, some d, some ns =>
+      let ep := epOf v (mkKeys a b c d) eb
+      let r := verifyOf v (mkParams eb ps cps) ep ns
+      -- the oracle speaks about the production configuration ctx.proof_size = proofsize
+      let o := oracleAccept v ps (2^eb - 1) ep ns
+      if cps == ps && (impl == "ok") != o then
+        (st, .fail s!"oracle={if o then "accept" else "reject"} model={resName r}")
+      else (st, cmpModel (resName r) impl)
+    | _, _, _, _, _, _, _, _, _ => (st, .unknown)
+  | ["exh", v, eb, ps, a, b, c, d] =>
+    match Variant.ofString? v, nat? eb, nat? ps, nat? a, nat? b, nat? c, nat? d with
+    | some v, some eb, some ps, some a, some b, some c, some d =>
+      (st, exhaustive v eb ps (mkKeys a b c d) impl)
+    | _, _, _, _, _, _, _ => (st, .unknown)
+  | ["pack", w, ps, ns] =>
+    match nat? w, nat? ps, parseNatList ns with
+    | some w, some ps, some ns =>
+      match packNonces w ps ns with
+      | some bs => (st, cmpSpec (toHex bs) impl)
+      | none => (st, cmpSpec "panic" impl)
+    | _, _, _ => (st, .unknown)
+  | ["unpack", w, ps, hx] =>
+    match nat? w, nat? ps, parseHex hx with
+    | some w, some ps, some bs =>
+      match readProof w ps bs with
+      | some ns => (st, cmpSpec (showNatList ns) impl)
+      | none => (st, cmpSpec "err" impl)
+    | _, _, _ => (st, .unknown)
+  | ["diff", scale, hx] =>
+    match nat? scale, parseHex hx with
+    | some sc, some bs => (st, cmpSpec (toString (scaledDifficulty sc bs)) impl)
+    | _, _ => (st, .unknown)
+  | _ => (st, .unknown)
 
 end GV.Drv.PowD
